@@ -21,6 +21,7 @@ import (
 	"unsafe"
 
 	"github.com/openacid/low/size"
+	"github.com/openacid/low/typehelper"
 )
 
 // ---- hand-declared types (what reflect cannot make: names, unexported fields, recursion, methods)
@@ -512,6 +513,131 @@ func (d *c20DetInfo) walk(v V, depth, maxItem int) {
 	}
 }
 
+
+// ---- Go value -> value text (the inverse of c20Build; used for typehelper.ToSlice, whose RESULT is
+// compared as a text, and as a round-trip check of the builder)
+
+func c20TypeText(t reflect.Type) string {
+	switch t {
+	case reflect.TypeOf(c20My{}):
+		return L(Int(c20KMy))
+	case reflect.TypeOf(c20AB{}):
+		return L(Int(c20KAB))
+	case reflect.TypeOf(c20RI{}):
+		return L(Int(c20KRI))
+	case reflect.TypeOf(c20UU{}):
+		return L(Int(c20KUU))
+	}
+	k := int(t.Kind())
+	switch {
+	case k <= 16 || k == 24:
+		return L(Int(k))
+	case k == 23 || k == 22:
+		return L(Int(k), c20TypeText(t.Elem()))
+	case k == 17:
+		return L("17", c20TypeText(t.Elem()), Int(t.Len()))
+	case k == 21:
+		return L("21", c20TypeText(t.Key()), c20TypeText(t.Elem()))
+	case k == 20:
+		if t == c20Iface[0] {
+			return L("20", "0")
+		}
+		return L("20", "1")
+	case k == 25:
+		xs := make([]string, t.NumField())
+		for i := range xs {
+			xs[i] = c20TypeText(t.Field(i).Type)
+		}
+		return L("25", L(xs...))
+	}
+	c20Fatal("type text: %s", t)
+	return ""
+}
+
+func c20Ser(rv reflect.Value) string {
+	k := int(rv.Kind())
+	switch {
+	case k == 1:
+		return L("1", B(rv.Bool()))
+	case k >= 2 && k <= 6:
+		return L(Int(k), I(rv.Int()))
+	case k >= 7 && k <= 12:
+		return L(Int(k), strconv.FormatUint(rv.Uint(), 10))
+	case k == 13 || k == 14:
+		return L(Int(k), I(int64(rv.Float())))
+	case k == 15 || k == 16:
+		return L(Int(k), I(int64(real(rv.Complex()))))
+	case k == 24:
+		return L("24", Str(rv.String()))
+	case k == 23 || k == 17:
+		xs := make([]string, rv.Len())
+		for i := range xs {
+			xs[i] = c20Ser(rv.Index(i))
+		}
+		if k == 17 {
+			return L("17", c20TypeText(rv.Type().Elem()), L(xs...))
+		}
+		return L("23", c20TypeText(rv.Type().Elem()), B(rv.IsNil()), L(xs...))
+	case k == 21:
+		xs := []string{}
+		for _, key := range rv.MapKeys() {
+			xs = append(xs, L(c20Ser(key), c20Ser(rv.MapIndex(key))))
+		}
+		sort.Strings(xs) // canonical order
+		return L("21", c20TypeText(rv.Type().Key()), c20TypeText(rv.Type().Elem()), B(rv.IsNil()), L(xs...))
+	case k == 22:
+		if rv.IsNil() {
+			return L("22", c20TypeText(rv.Type().Elem()), L())
+		}
+		return L("22", c20TypeText(rv.Type().Elem()), L(c20Ser(rv.Elem())))
+	case k == 20:
+		w := "1"
+		if rv.Type() == c20Iface[0] {
+			w = "0"
+		}
+		if rv.IsNil() {
+			return L("20", w, L())
+		}
+		return L("20", w, L(c20Ser(rv.Elem())))
+	case k == 25:
+		xs := make([]string, rv.NumField())
+		for i := range xs {
+			xs[i] = c20Ser(rv.Field(i))
+		}
+		return L("25", L(xs...))
+	}
+	c20Fatal("serialize: kind %s", rv.Kind())
+	return ""
+}
+
+// c20SerTop: an interface{} argument / result
+func c20SerTop(data interface{}) string {
+	if data == nil {
+		return "[0]"
+	}
+	return c20Ser(reflect.ValueOf(data))
+}
+
+// c20Canon: the canonical text of the value a text describes (no sharing ids, payloads as the
+// serializer prints them, map entries sorted).  A fixed point of build-then-serialize.
+func c20Canon(text string) string {
+	v, err := ParseVal(text)
+	if err != nil {
+		c20Fatal("canon: %v", err)
+	}
+	return c20SerTop(c20Arg(v))
+}
+
+// c20CanonArg builds the argument and insists that the text is canonical
+func c20CanonArg(v V) interface{} {
+	data := c20Arg(v)
+	got, err := ParseVal(c20SerTop(data))
+	if err != nil || c20Dump(got) != c20Dump(v) {
+		c20Fatal("the value text is not canonical (serialize(build(text)) differs):\n%s\n%s", c20Dump(v), c20Dump(got))
+	}
+	return data
+}
+
 func init() {
 	Exec["size.Of"] = func(a []V) string {
 		data := c20Arg(a[0])
@@ -569,6 +695,15 @@ func init() {
 		lines := strings.Split(c20Stat(a), "\n")
 		sort.Strings(lines)
 		return Strs(lines)
+	}
+	// typehelper.ToSlice: the result written back as a value text
+	Exec["typehelper.ToSlice"] = func(a []V) string {
+		data := c20CanonArg(a[0])
+		return c20SerTop(typehelper.ToSlice(data))
+	}
+	Exec["typehelper.ToSlice+size.Of"] = func(a []V) string {
+		data := c20CanonArg(a[0])
+		return Int(size.Of(typehelper.ToSlice(data)))
 	}
 	Register("C20", genC20)
 }
@@ -1061,6 +1196,33 @@ func genC20(g *Gen) {
 		}
 		g.Do(op, L(text, lab, Int(d), Int(m), Int(avg), unit), rk)
 	}
+	// typehelper.ToSlice (and size.Of of its result) on the canonical text of a value
+	toSlice := func(text, bucket string) {
+		canon := c20Canon(text)
+		key, _ := c20Key(canon)
+		v, _ := ParseVal(canon)
+		tk := ""
+		if len(v.L) > 1 && v.L[0].Int() == 23 {
+			n := len(v.L[3].L)
+			ek := v.L[1].L[0].Int()
+			if n >= 2 || key != "" {
+				tk = fmt.Sprintf("toslice/n%d/elem%d/nil%d/%s", minInt(n, 8), ek, v.L[2].Int(), key)
+			}
+			g.Stat("toslice-slice")
+		} else {
+			g.Stat("toslice-not-a-slice")
+		}
+		g.Stat(bucket)
+		g.Do("typehelper.ToSlice", L(canon), tk)
+		g.Do("typehelper.ToSlice+size.Of", L(canon), tk)
+	}
+	emit0 := emit
+	emit = func(text, bucket string) {
+		emit0(text, bucket)
+		if strings.HasPrefix(text, "[23,") || g.R.Intn(10) == 0 {
+			toSlice(text, "toslice-from-"+strings.SplitN(bucket, "-", 2)[0])
+		}
+	}
 	gen := &c20Gen{r: g.R, budget: 1 << 30}
 	gen.reset(0)
 
@@ -1266,6 +1428,31 @@ func genC20(g *Gen) {
 		}
 	}
 	g.Exhaust = append(g.Exhaust, fmt.Sprintf("sharing: 21 patterns (same pointer twice in a slice/array/struct/map, in a field and in an interface, diamonds, shared **T, shared slices and maps) x %d element types", len(elems)))
+
+
+	// (3d) typehelper.ToSlice: slices of every leaf type and of some composites, every length 0..6, with
+	// pairwise distinct elements (order and count are visible), and with a repeated element; nil slices;
+	// and what is not a slice: nil, array, pointer to slice, string, map, struct, scalar
+	for _, e := range elems {
+		T := e.t.Text()
+		for n := 0; n <= 6; n++ {
+			toSlice(L("23", T, "0", rep(n, e.v)), "exh-toslice")
+		}
+		toSlice(L("23", T, "0", L(e.v(1), e.v(0), e.v(1), e.v(1))), "exh-toslice")
+		toSlice(L("23", T, "1", L()), "exh-toslice")
+		toSlice(L("17", T, rep(2, e.v)), "exh-toslice")
+		toSlice(L("22", L("23", T), L(L("23", T, "0", rep(2, e.v)))), "exh-toslice")
+		toSlice(L("21", "[5]", T, "0", L(L("[5,1]", e.v(0)))), "exh-toslice")
+		toSlice(L("25", L(L("23", T, "0", rep(2, e.v)))), "exh-toslice")
+		if e.t.K != 20 {
+			toSlice(e.v(0), "exh-toslice")
+		}
+	}
+	toSlice("[0]", "exh-toslice")
+	// slices of interface values: nil and non-nil slots, both interface types
+	toSlice(L("23", "[20,0]", "0", L("[20,0,[]]", "[20,0,[[24,x6162]]]", "[20,0,[]]", "[20,0,[[22,[3],[[3,5]]]]]", "[20,0,[[22,[3],[]]]]")), "exh-toslice")
+	toSlice(L("23", "[20,1]", "0", L("[20,1,[[22,[5],[[5,7]]]]]", "[20,1,[]]", "[20,1,[[22,[5],[[5,8]]]]]")), "exh-toslice")
+	g.Exhaust = append(g.Exhaust, fmt.Sprintf("ToSlice: slices of length 0..6 with distinct elements, a repeated element, nil slices and 6 kinds of non-slices over %d element types; slices of nil / non-nil interface values", len(elems)))
 
 	// (3c) slices / arrays whose elements are ARRAYS of non-scalars: outer x array length x inner shape x leaf type
 	for _, e := range inner {
